@@ -121,7 +121,7 @@ PROPS = {
     "C11": dict(
         title="A setup node runs at most once per DAG instance and its value is reused",
         core=["OWN-WRITEBACK", "OWN-SETUP", "SCH-PRUNE"],
-        aux=["OWN-DEEPCOPY", "VAL-SETUPDEP", "VAL-SETUPARG", "SIB-DAG", "SIB-FWD", "GT-PRESENCE"],
+        aux=["OWN-DEEPCOPY", "VAL-SETUPDEP", "VAL-SETUPARG", "SIB-DAG", "SIB-FWD", "GT-PRESENCE", "OWN-SCHEDCOPY"],
         explanation="Who-may-write: the only element write into a DAG's results on a run path is the guarded setup write-back and "
                     "the only re-binding is setup() on a setup-only graph; pruning by membership precedes scheduling; build-time "
                     "refusals present; selection forwarded.",
